@@ -4,6 +4,8 @@ reordering.
 spec: cli/SplitJoinSpec.
 """
 import contextlib
+import json
+import zlib
 import io
 import shutil
 
@@ -53,8 +55,14 @@ def _join(job):
     try:
         inputs = case["inputs"]
         paths = []
+        # file names are not part of the specification: choose them so that
+        # their alphabetical order is unrelated to the given order
+        k = len(inputs)
+        labels = "abcdefgh"[:k]
+        rot = zlib.crc32(json.dumps(inputs, sort_keys=True).encode()) % k
+        labels = labels[::-1] if rot == 0 else labels[rot:] + labels[:rot]
         for i, inp in enumerate(inputs, start=1):
-            p = d / ("in%d.rtdc" % i)
+            p = d / ("in_%s.rtdc" % labels[i - 1])
             write_input(p, i, inp)
             paths.append(p)
         po = d / "out.rtdc"
